@@ -332,6 +332,65 @@ def check_loader(run):
                             theorem="C18_failure_preserves")
 
 
+def check_reload(run):
+    """the model-development workflow on ONE path: load, edit the file, load
+    again; load a faulty file, correct it, load again -- every load must
+    behave like the code the file holds at that moment"""
+    from nanite import model
+    d = common.scratch() / "models_reload"
+    d.mkdir(parents=True, exist_ok=True)
+    path = d / "nvdev.py"
+    good = MODEL_SRC % {"key": "nv_dev"}
+    steps = [
+        ("first", good, "ok", "file model nv_dev", ["Pa", "m", "N"], 2.0),
+        ("edited names/units/function",
+         good.replace("file model nv_dev", "second draft")
+             .replace('["Pa", "m", "N"]', '["kPa", "um", "nN"]')
+             .replace("** 2", "** 2 * 2.0"),
+         "ok", "second draft", ["kPa", "um", "nN"], 4.0),
+        ("made incomplete", good.replace("model_name = ", "zz = "),
+         "ModelIncompleteError", None, None, None),
+        ("corrected", good, "ok", "file model nv_dev", ["Pa", "m", "N"], 2.0),
+    ]
+    for reg in (True, False):
+        for j, (what, src, want, name, units, fac) in enumerate(steps):
+            path.write_text(src)
+            # a changed size / time stamp, as after a real edit
+            import os
+            os.utime(path, (1000000000 + 10 * j, 1000000000 + 10 * j))
+            key = f"reload:{reg}:{j}"
+            run.case({"reload": what, "register": reg}, kind="reload")
+            try:
+                md = model.load_model_from_file(path, register=reg)
+                out = "ok"
+            except BaseException as e:
+                out, md = type(e).__name__, None
+            why = None
+            if out != want:
+                why = f"-> {out}, expected {want}"
+            elif md is not None:
+                x = np.linspace(1e-6, -1e-6, 7)
+                p = md.get_parameter_defaults()
+                ref = np.zeros_like(x)
+                ref[-x > 0] = 3e3 * (-x[-x > 0]) ** 2 * (fac / 2.0)
+                reg_md = model.models_available.get("nv_dev") if reg else md
+                if md.model_name != name or list(md.parameter_units) != units:
+                    why = (f"loaded model has name {md.model_name!r}, units "
+                           f"{list(md.parameter_units)}; the file says "
+                           f"{name!r}, {units}")
+                elif not np.allclose(md.model(p, x), ref, rtol=1e-12):
+                    why = "loaded model does not evaluate the file's function"
+                elif reg and (reg_md is None or reg_md.model_name != name):
+                    why = "the registry holds another model than the file's"
+            if why:
+                run.failing(SITE_L, key, f"load #{j + 1} of one path "
+                            f"({what}, register={reg}): {why}",
+                            payload={"kind": "rerun"},
+                            theorem="C18_register_available")
+        if "nv_dev" in model.models_available:
+            model.deregister_model(model.models_available["nv_dev"])
+
+
 def check_sequences(run):
     """random register / deregister / load sequences against rstep"""
     from nanite import model
@@ -516,6 +575,7 @@ def check(run):
     ]
     check_mutants(run)
     check_loader(run)
+    check_reload(run)
     check_sequences(run)
     check_seeding(run)
     run.exhaustive = True
